@@ -329,7 +329,23 @@ def load_outcome(cfgname, src):
     signal.setitimer(signal.ITIMER_REAL, 120.0)
     try:
         try:
-            env.from_string(src)
+            tmpl = env.from_string(src)
+            # "yields a renderable template": rendering on an empty context may raise what the data /
+            # operators raise, but never an error that only broken generated code produces
+            try:
+                if getattr(env, "is_async", False):
+                    import asyncio
+                    asyncio.run(tmpl.render_async())
+                else:
+                    tmpl.render()
+            except (NameError, UnboundLocalError, SyntaxError, SystemError) as e:
+                return f"loaded template is not renderable: {type(e).__name__}: {str(e)[:80]}"
+            except _Timeout:
+                return None        # a long-running loop written in the template is not a loading defect
+            except RecursionError:
+                return None
+            except BaseException:
+                return None
             return None
         except jinja2.TemplateSyntaxError as e:
             if not isinstance(e.lineno, int) or not (1 <= e.lineno <= nlines):
@@ -409,6 +425,8 @@ PROBES = [
     ("default", "{{ f(\ufb01=1, fi=2) }}"),
     ("default", "{% set \u00b5 = 1 %}{% set \u03bc = 2 %}"),
     ("default", "{% macro m(a=1, b) %}{% endmacro %}"),
+    ("default", "{% set x = 1e400 %}{{ x }}{{ [1e400, -1e400] }}"), ("default", "{{ 1e308 * 10 }}{{ 1e308 * 10 - 1e308 * 10 }}"),
+    ("async", "{% set x = 1e400 %}{{ x }}"), ("default", "{{ (-1) ** 2 }}{{ -1 ** 2 }}{{ (-1).real }}{{ (-1)|abs }}"),
     ("default", "{{ f(__debug__=1) }}"), ("default", "{% call(x) f(__debug__=1, class=2) %}{% endcall %}"),
     ("default", "{{ a[:,:] }}"), ("default", "{{ a[1:2,3] }}"), ("default", "{{ a[::2, 1][0] }}"),
     ("default", "{% set __debug__ = 1 %}{% macro m(__debug__, None_=1) %}{{ __debug__ }}{% endmacro %}{{ m(__debug__=2) }}"),
